@@ -351,6 +351,16 @@ func (r *Resolver) Resolve(ctx context.Context, name string) (ResolveResult, err
 		svcbName = fmt.Sprintf("_%s.%s", scheme, name)
 	}
 
+	// The prefixed name must be a valid name too.
+	if len(svcbName) > 255 {
+		return result, ErrInvalidName
+	}
+	for _, p := range strings.Split(svcbName, ".") {
+		if len(p) > 63 {
+			return result, ErrInvalidName
+		}
+	}
+
 	// First, resolve HTTPS Aliases.
 	want := svcbName
 	seen := make(map[string]bool)
